@@ -7,6 +7,7 @@ import itertools
 import numpy as np
 from hypothesis import strategies as st
 
+from mzverif import core
 from mzverif import lib as L
 from mzverif import model as M
 from mzverif.core import Sub, call, require
@@ -22,7 +23,7 @@ RULE = (
 ASSUMPTIONS = ["only valid indices 0 <= i < len are queried (the statement quantifies over valid indices)"]
 
 
-def _maze(n: int, k: int):
+def _maze(n: int, k: int, meta: dict | None = None):
     """a distinct solved maze on an n x n grid (k selects which lattice edge is the single connection)"""
     E = M.lattice_edges(n, n)
     bits = [0] * (2 * n * n)
@@ -32,7 +33,7 @@ def _maze(n: int, k: int):
         sol = [list(u), list(v)]
     else:
         sol = [[0, 0]]
-    return L.solved(M.g_make(n, n, bits), sol)
+    return L.solved(M.g_make(n, n, bits), sol, meta=meta)
 
 
 def check(case: dict):
@@ -42,7 +43,10 @@ def check(case: dict):
         r = _check_one(case)
         _check_one(case["other"])
         return r
-    return _check_one(case)
+    r = _check_one(case)
+    if sum(case["lens"]) <= 40 and case.get("route", "hand") == "hand":
+        _check_one(case)  # a second collection with the same member layout, built after the first one was used
+    return r
 
 
 def _check_one(case: dict):
@@ -89,6 +93,15 @@ def _check_one(case: dict):
     if list(declared) != list(lens):
         n2 = call("C16:len", len, col)
         require(n2 == total, "C16:len", f"after update_self_config len(collection)={n2}, members {lens}")
+    # the caller goes on working with the offset / length arrays it was handed (turning end offsets into start offsets, say): the
+    # collection's own answers - and those of any other collection with the same member lengths - do not depend on those arrays
+    for attr in ("dataset_cum_lengths", "dataset_lengths"):
+        handed = call(f"C16:{attr}", lambda: getattr(col, attr))
+        core.scribble(handed if isinstance(handed, np.ndarray) else None)
+    for i in range(total):
+        got = call("C16:getitem", col.__getitem__, i)
+        require(got is concat[i], "C16:getitem-wrong-maze", f"lens={lens}: after the caller overwrote the offsets it had been handed, item {i} is not the maze at position {i}"
+                f" (it is at position {next((k for k, m in enumerate(concat) if m is got), None)})")
     nonempty = sum(1 for x in lens if x > 0)
     labels = [route]
     if len(set(names)) < len(names):
@@ -126,7 +139,9 @@ def check_history(case: dict):
     lens, grids, ops = case["lens"], case["grids"], case["ops"]
     cfgs = [MazeDatasetConfig(name=f"m{j}", grid_n=grids[j], n_mazes=lens[j], seed=100 + j) for j in range(len(lens))]
     ccfg = MazeDatasetCollectionConfig(name="col", maze_dataset_configs=cfgs)
-    members = [MazeDataset(cfg=cfgs[j], mazes=[_maze(grids[j], 7 * j + k) for k in range(lens[j])]) for j in range(len(lens))]
+    with_meta = any(o[0] == "serialize" for o in ops)  # (as generated mazes carry it: what the compact storage format gathers)
+    mk_meta = lambda j, k: {"func_name": "by-hand", "grid_shape": np.array([grids[j], grids[j]]), "fully_connected": False, "k": int(k % 3)} if with_meta else None  # noqa: E731
+    members = [MazeDataset(cfg=cfgs[j], mazes=[_maze(grids[j], 7 * j + k, mk_meta(j, k)) for k in range(lens[j])]) for j in range(len(lens))]
     col = call("C16:construct", MazeDatasetCollection, ccfg, members)
     edited = False
     n_obs_after_edit = 0
@@ -157,6 +172,18 @@ def check_history(case: dict):
             edited = True
         elif kind == "update":
             call("C16:history:update_self_config", col.update_self_config)
+        elif kind == "serialize":
+            # the collection is stored (members in the compact format, which gathers their per-maze metadata first); whether storing works is
+            # C05's business - here only: the collection still agrees with its members afterwards
+            import maze_dataset.dataset.maze_dataset as md
+
+            md.set_serialize_minimal_threshold(op[1])
+            try:
+                col.serialize()
+            except Exception:  # noqa: BLE001
+                pass
+            finally:
+                md.set_serialize_minimal_threshold(100)
         else:
             raise ValueError(kind)
     _observe(col, None, "C16:history")
@@ -176,6 +203,7 @@ def _histories(draw, maxm, maxlen):
         st.tuples(st.just("grow"), st.integers(0, n - 1)).map(list),
         st.tuples(st.just("replace"), st.integers(0, n - 1), st.integers(0, maxlen)).map(list),
         st.just(["update"]),
+        st.tuples(st.just("serialize"), st.sampled_from([0, 1, 2, 100])).map(list),
     )
     ops = draw(st.lists(op, min_size=1, max_size=8))
     return {"lens": lens, "grids": grids, "ops": [["observe"]] + ops}
